@@ -24,6 +24,40 @@ type fsState struct {
 	nodes map[string]*fsNode
 	log   []string
 	tmpN  int
+	open  map[*value]*fsOpen // files handed out by os.CreateTemp / os.Open
+}
+
+type fsOpen struct {
+	path string
+	off  int
+}
+
+// newFile allocates an *os.File value that stands for path in the model.
+func (i *interpreter) newFile(path string) *value {
+	pkg := i.prog.ImportedPackage("os")
+	if pkg == nil || pkg.Type("File") == nil {
+		unmodelled("os.File not loaded")
+	}
+	p := new(value)
+	*p = zero(pkg.Type("File").Type().Underlying())
+	fs := i.ex.fsm()
+	if fs.open == nil {
+		fs.open = map[*value]*fsOpen{}
+	}
+	fs.open[p] = &fsOpen{path: path}
+	return p
+}
+
+func (i *interpreter) openFile(v value) (*fsOpen, *fsNode) {
+	p, ok := v.(*value)
+	if !ok || i.ex.fs == nil {
+		return nil, nil
+	}
+	o := i.ex.fs.open[p]
+	if o == nil {
+		return nil, nil
+	}
+	return o, i.ex.fs.nodes[o.path]
 }
 
 func (ex *Exec) fsm() *fsState {
@@ -202,6 +236,58 @@ func init() {
 			fs.nodes[p] = &fsNode{data: append([]value(nil), args[1].([]value)...)}
 			fs.log = append(fs.log, "write "+p)
 			return noErr()
+		},
+		"os.CreateTemp": func(fr *frame, args []value) value {
+			fs := fr.i.ex.fsm()
+			dir := fsPath(args[0])
+			if args[0].(string) == "" {
+				dir = "/tmp"
+			}
+			if n, ok := fs.nodes[dir]; !ok || !n.dir {
+				return tuple{(*value)(nil), fr.i.fsErr("ErrNotExist")}
+			}
+			fs.tmpN++
+			pat := args[1].(string)
+			name := pat + fmt.Sprint(fs.tmpN)
+			if k := strings.LastIndexByte(pat, '*'); k >= 0 {
+				name = pat[:k] + fmt.Sprint(fs.tmpN) + pat[k+1:]
+			}
+			p := filepath.Join(dir, name)
+			fs.nodes[p] = &fsNode{}
+			fs.log = append(fs.log, "create "+p)
+			return tuple{fr.i.newFile(p), noErr()}
+		},
+		"os.Open": func(fr *frame, args []value) value {
+			fs := fr.i.ex.fsm()
+			p := fsPath(args[0])
+			if n, ok := fs.nodes[p]; !ok || n.dir {
+				return tuple{(*value)(nil), fr.i.fsErr("ErrNotExist")}
+			}
+			return tuple{fr.i.newFile(p), noErr()}
+		},
+		"(*os.File).Name": func(fr *frame, args []value) value {
+			if o, _ := fr.i.openFile(args[0]); o != nil {
+				return o.path
+			}
+			return "/dev/std"
+		},
+		"(*os.File).Read": func(fr *frame, args []value) value {
+			o, n := fr.i.openFile(args[0])
+			if o == nil || n == nil {
+				unmodelled("read from a file that is not in the file-system model")
+			}
+			buf := args[1].([]value)
+			if o.off >= len(n.data) {
+				pkg := fr.i.prog.ImportedPackage("io")
+				cell, ok := fr.i.globals[pkg.Var("EOF")]
+				if !ok {
+					cell = fr.i.shared[pkg.Var("EOF")]
+				}
+				return tuple{0, *cell}
+			}
+			k := copy(buf, n.data[o.off:])
+			o.off += k
+			return tuple{k, noErr()}
 		},
 		"os.ReadFile": func(fr *frame, args []value) value {
 			fs := fr.i.ex.fsm()
